@@ -38,6 +38,7 @@ theorem mk_deriv_nonperiodic {b : Basis K} (hv : b.Valid) (hper : b.periodic = -
   have hmax : max ((-1 : Int) - 1) (-1) = -1 := by decide
   simp only [hmax]
   rw [if_neg (by intro h; exact absurd h.1 (by decide))]
+  rw [if_neg (by intro h; exact absurd h.1 (by decide))]
   rw [if_neg]
   intro hany
   rw [List.any_eq_true] at hany
@@ -59,7 +60,7 @@ theorem mk_deriv_periodic {b : Basis K} (hv : b.Valid) (hper : 0 ≤ b.periodic)
   refine ⟨⟨b.order - 1, b.knots.extract 1 (b.knots.size - 1), b.periodic - 1⟩, ?_, ⟨rfl, rfl, rfl⟩⟩
   unfold Basis.mk?
   simp only [hs, hmax]
-  rw [if_neg (by omega), if_neg (by omega)]
+  rw [if_neg (by omega), if_neg (by omega), if_neg (by rintro ⟨h1, h2⟩; omega)]
   have hT : ∀ j, j + b.numFunctions < b.knots.size →
       b.kn (j + b.numFunctions) = b.kn j + (b.stop - b.start) := hv.ghosts hper
   rw [if_neg]
